@@ -31,7 +31,7 @@ func writeTxOut(txout *transaction.TxOutput) ([]byte, error) {
 }
 
 func readTxOut(txout []byte) (*transaction.TxOutput, error) {
-	if len(txout) < 45 {
+	if len(txout) < 44 {
 		return nil, ErrInvalidPsbtFormat
 	}
 	d := bufferutil.NewDeserializer(bytes.NewBuffer(txout))
